@@ -121,16 +121,32 @@ func (w *rw) failf(tag, format string, args ...interface{}) {
 	}
 }
 
+// hot maps half of the column arguments onto three columns, so that calls of
+// different goroutines meet in the same cell often enough.
+func hot(a, b int) int {
+	if (a+b)%2 == 1 {
+		return a % 3
+	}
+	return a
+}
+
 func (w *rw) do(c call, polling *bool) {
 	sc := w.scr
 	st := tcell.StyleDefault.Foreground(tcell.PaletteColor(c.A)).Bold(c.B%2 == 0)
 	switch c.M {
 	case "SetContent":
-		sc.SetContent(c.A, c.B, rune('a'+c.A), nil, st)
+		var comb []rune
+		if c.B%2 == 1 {
+			comb = []rune{0x301, 0x308}[:1+c.A%2]
+		}
+		sc.SetContent(hot(c.A, c.B), c.B%2, rune('a'+c.A), comb, st)
 	case "SetCell":
-		sc.SetCell(c.A, c.B, st, rune('A'+c.B), 0x301)
+		sc.SetCell(hot(c.A, c.B), c.B%2, st, rune('A'+c.B), 0x301)
 	case "GetContent":
-		sc.GetContent(c.A, c.B)
+		// the application looks at what it got back, after the call
+		_, comb, _, _ := sc.GetContent(hot(c.A, c.B), c.B%2)
+		simrt.Yield("use-result")
+		tcell.VerifTouchRunes(comb)
 	case "Fill":
 		sc.Fill(rune('0'+c.A), st)
 	case "Clear":
